@@ -428,19 +428,26 @@ class MacroProgram(ElementProgram):
                 )
 
             def CASE(node):
+                # The case expression is evaluated (once) only if the
+                # switch has not been cancelled by an earlier case.
                 return nodes.Define(
                     [nodes.Alias(["default"], self.default_marker)],
                     nodes.Condition(
-                        nodes.And([
-                            nodes.BinOp(
-                                switch, nodes.IsNot, self._cancel_marker),
-                            nodes.Or([
-                                nodes.BinOp(value, nodes.Equals, switch),
-                                nodes.BinOp(
-                                    value, nodes.Equals, self.default_marker)
-                            ])
-                        ]),
-                        nodes.Cancel([switch], node, self._cancel_marker),
+                        nodes.BinOp(
+                            switch, nodes.IsNot, self._cancel_marker),
+                        nodes.Cache(
+                            [value],
+                            nodes.Condition(
+                                nodes.Or([
+                                    nodes.BinOp(
+                                        value, nodes.Equals, switch),
+                                    nodes.BinOp(
+                                        value, nodes.Equals,
+                                        self.default_marker)
+                                ]),
+                                nodes.Cancel(
+                                    [switch], node, self._cancel_marker),
+                            ))
                     ))
 
         # tal:repeat
